@@ -503,6 +503,121 @@ fn bad_cast(rep: &mut Report, case_no: u64) {
     }
 }
 
+/// Several threads use one table at the same time (a meta table is `Sync`: it is meant to live
+/// in the world and to be read by systems running in parallel): every lookup must still denote
+/// the very resource it was given, with the methods of its concrete type.
+#[cfg(not(feature = "parallel"))]
+fn concurrent(_: &mut Rng, rep: &mut Report, _: u64, _: bool) {
+    // without the `parallel` feature resources need not be `Sync`: a world cannot be shared
+    rep.metric("concurrent_cases_skipped_no_parallel_feature", 1);
+}
+
+#[cfg(feature = "parallel")]
+fn concurrent(rng: &mut Rng, rep: &mut Report, case_no: u64, small: bool) {
+    use std::sync::atomic::{AtomicBool, AtomicUsize, Ordering::SeqCst};
+    use std::sync::Mutex;
+    rep.evaluations += 1;
+    let mut world = World::empty();
+    let mut table: MetaTable<dyn MObj> = MetaTable::new();
+    let mut reg: Vec<usize> = Vec::new();
+    let mut present: [Option<u64>; NO] = [None; NO];
+    // registration with repeats, a random subset present
+    let nreg = rng.range(2, NO);
+    for _ in 0..nreg + rng.below(4) {
+        let t = rng.below(NO);
+        with_o!(t, T => table.register::<T>());
+        if !reg.contains(&t) {
+            reg.push(t);
+        }
+    }
+    for t in 0..NO {
+        if rng.chance(3, 4) {
+            let v = 1 + rng.next() % 200;
+            with_o!(t, T => world.insert(T::new(v)));
+            present[t] = Some(norm(t, v));
+        }
+    }
+    // (`small`: the interpreter runs this too - a few lookups from two threads)
+    let threads = if small { 2 } else { rng.range(2, 6) };
+    let rounds = if small { rng.range(4, 12) } else { rng.range(50, 400) };
+    let seeds: Vec<u64> = (0..threads).map(|_| rng.next()).collect();
+    let failures: Mutex<Vec<(String, String)>> = Mutex::new(Vec::new());
+    let lookups = AtomicUsize::new(0);
+    let go = AtomicBool::new(false);
+    let ready = AtomicUsize::new(0);
+    let (world_r, table_r, reg_r, present_r) = (&world, &table, &reg, &present);
+    std::thread::scope(|sc| {
+        for seed in seeds.iter().cloned() {
+            let (failures, lookups, go, ready) = (&failures, &lookups, &go, &ready);
+            sc.spawn(move || {
+                let mut rng = Rng::new(seed);
+                ready.fetch_add(1, SeqCst);
+                while !go.load(SeqCst) {
+                    std::thread::yield_now();
+                }
+                let r = catch_unwind(AssertUnwindSafe(|| {
+                    for _ in 0..rounds {
+                        if rng.chance(1, 8) {
+                            // shared iteration next to the lookups
+                            let got: Vec<(usize, u64)> = table_r.iter(world_r).map(|o| (o.tag() as usize, o.peek())).collect();
+                            let want: Vec<(usize, u64)> = reg_r.iter().filter_map(|t| present_r[*t].map(|v| (*t, v))).collect();
+                            if got != want {
+                                failures.lock().unwrap().push(("concurrent_iter_differs".into(), format!("iter() next to concurrent lookups yielded {:?}, expected {:?}", got, want)));
+                                return;
+                            }
+                            continue;
+                        }
+                        let t = rng.below(NO);
+                        let registered = reg_r.contains(&t);
+                        let bad: Option<String> = with_o!(t, T => {
+                            match world_r.try_fetch::<T>() {
+                                None => None,
+                                Some(g) => {
+                                    let res: &dyn Resource = &*g;
+                                    let res_addr = res as *const dyn Resource as *const () as usize;
+                                    lookups.fetch_add(1, SeqCst);
+                                    match table_r.get(res) {
+                                        Some(o) => {
+                                            if !registered {
+                                                Some(format!("get(O{}) returned an object for a type that was never registered", t))
+                                            } else if o.tag() != t as u32 || o.addr() != res_addr || Some(o.peek()) != present_r[t] {
+                                                Some(format!("get(O{}): the object reports tag {} / address {:#x} / value {}, the resource is O{} at {:#x} with value {:?}", t, o.tag(), o.addr(), o.peek(), t, res_addr, present_r[t]))
+                                            } else {
+                                                None
+                                            }
+                                        }
+                                        None => if registered { Some(format!("get(O{}) returned None for a registered type", t)) } else { None },
+                                    }
+                                }
+                            }
+                        });
+                        if let Some(m) = bad {
+                            failures.lock().unwrap().push(("concurrent_get_wrong_object".into(), m));
+                            return;
+                        }
+                    }
+                }));
+                if let Err(p) = r {
+                    failures.lock().unwrap().push(("concurrent_get_panicked".into(), format!("a lookup on a shared table panicked: {}", payload_str(&*p))));
+                }
+            });
+        }
+        while ready.load(SeqCst) < threads {
+            std::thread::yield_now();
+        }
+        go.store(true, SeqCst);
+    });
+    rep.metric("concurrent_cases", 1);
+    rep.metric("concurrent_lookups", lookups.load(SeqCst) as i64);
+    rep.metric_max("threads_on_one_table", threads as i64);
+    let f = failures.into_inner().unwrap();
+    if let Some((k, m)) = f.first() {
+        rep.violation(k, m, case_no, J::obj().set("registered", J::from(reg.iter().map(|t| format!("O{}", t)).collect::<Vec<_>>())).set("threads", threads).set("rounds", rounds));
+    } else {
+        rep.nontrivial(mix(0xc0c0, mix(threads as u64, reg.len() as u64 * 1000 + present.iter().flatten().count() as u64)));
+    }
+}
+
 fn bad_cast_case(rep: &mut Report) {
     bad_cast(rep, 49);
     bad_cast_zst(rep, 49);
@@ -523,6 +638,8 @@ pub fn run(args: &Args) -> i32 {
         let mut rng = Rng::new(args.case_seed(c));
         if c % 50 == 49 {
             guard_case(&mut rep, c, bad_cast_case);
+        } else if c % 50 == 24 || args.has("--concurrent-only") {
+            guard_case(&mut rep, c, |rep| concurrent(&mut rng, rep, c, small));
         } else {
             guard_case(&mut rep, c, |rep| history(&mut rng, rep, c, if small { 25 } else { 70 }));
         }
